@@ -135,13 +135,20 @@ func build(race bool) error {
 	m := strings.ReplaceAll(string(mod), "/repo/proxy/src", scratch)
 	os.WriteFile(filepath.Join(scratch, "go.mod"), []byte(m), 0o644)
 	writeGoSum(filepath.Join(scratch, "go.sum"))
+	// built under a private name and moved into place: several checks may build
+	// and run side by side, and a binary that is being executed cannot be rewritten
 	out := filepath.Join(binDir(), "scen.test")
-	args := []string{"test", "-c", "-trimpath", "-tags", "verif", "-modfile", filepath.Join(scratch, "go.mod"), "-o", out, "./scen"}
+	tmpOut := filepath.Join(binDir(), fmt.Sprintf("scen.%d.tmp", os.Getpid()))
+	args := []string{"test", "-c", "-trimpath", "-tags", "verif", "-modfile", filepath.Join(scratch, "go.mod"), "-o", tmpOut, "./scen"}
 	if race {
 		out = filepath.Join(binDir(), "scen.race.test")
-		args = []string{"test", "-c", "-race", "-trimpath", "-tags", "verif", "-modfile", filepath.Join(scratch, "go.mod"), "-o", out, "./scen"}
+		args = []string{"test", "-c", "-race", "-trimpath", "-tags", "verif", "-modfile", filepath.Join(scratch, "go.mod"), "-o", tmpOut, "./scen"}
 	}
-	return run(simDir(), "go1.26.8", args...)
+	defer os.Remove(tmpOut)
+	if err := run(simDir(), "go1.26.8", args...); err != nil {
+		return err
+	}
+	return os.Rename(tmpOut, out)
 }
 
 func writeGoSum(dst string) {
